@@ -67,7 +67,7 @@ the model's reaction DictList well-formed):
         any other method: ValueError before any constructor is called; an exception in the optgp / achr cases only after the constructor call.
 
 ASSUMED: Pool.map (ordered map, workers initialised on a private copy), numpy.rowwise (validate only), HRSampler.__init__@samplers
-(dispatch only), float division / np.ceil exact, extensionality of arrays (`not any(a != b)` -> same point; _reproject only), np.random
+(dispatch only: the interface the hook creates the object by; all three constructors are proved in contracts/c16_hrinit.py), float division / np.ceil exact, extensionality of arrays (`not any(a != b)` -> same point; _reproject only), np.random
 deterministic given the seed, and the standing assumptions of the opaque algebra (pyvc/npalg.py).
 
 FINDINGS (native reproduction with /venv/bin/python against /repo; neither breaks the feasibility statement of C16)
@@ -1081,7 +1081,11 @@ REG.add(Contract(MO, "OptGPSampler.sample", "C14", [("self", _optgp_self()), ("n
 REG.add(Contract(MH, "HRSampler.__init__", "C16", [("self", TNone())], [Case("any")], assumed=True, key="HRSampler.__init__@samplers",
                  note="OptGPSampler(model, processes=, thinning=, seed=) / ACHRSampler(model, thinning=, seed=): a new sampler whose `thinning` "
                       "(and `processes`) are the arguments, n_samples = 0, nproj >= 1, whose `model` is a private copy of the model with a "
-                      "well-formed reaction DictList; ValueError / TypeError for models that cannot be sampled"))
+                      "well-formed reaction DictList; ValueError / TypeError for models that cannot be sampled.  SINCE contracts/c16_hrinit.py: "
+                      "HRSampler.__init__ itself is PROVED (key HRSampler.__init__) and these facts follow from its post-condition (lemma "
+                      "C16/lemma/dispatch/..., nproj >= 1 given one solver variable); the SUBCLASS constructors ACHRSampler.__init__ / OptGPSampler.__init__ are proved there too "
+                      "(super().__init__ by contract, arguments passed on unchanged, then warmup / n_warmup / center / prev / processes); this "
+                      "contract remains as the INTERFACE the dispatch hook of sampling.sample creates the sampler object by"))
 
 
 def d_global(eng, name):
